@@ -710,7 +710,7 @@ class World:
     def _aux(self, kind, hostname, c):
         from treadmill import presence
         self.count('aux_calls')
-        self.admin.vf_actor = ('aux', hostname, kind)
+        self.admin.vf_actor = ('aux', hostname, kind, c['cid'])
         before = len(self.srv.log)
         try:
             if kind == 'kill_node':
